@@ -448,7 +448,12 @@ def run(res):
         scases += s_
         ccases += st.pop("crash_states")
         for k, v in st.items():
-            mstats[k] = mstats.get(k, 0) + v
+            if isinstance(v, dict):
+                d0 = mstats.setdefault(k, {})
+                for kk, vv in v.items():
+                    d0[kk] = d0.get(kk, 0) + vv
+            else:
+                mstats[k] = mstats.get(k, 0) + v
     badc = balancelib.coq_mismatches("c03c", "scase", "sc_mismatches", ccases)
     badt = balancelib.coq_mismatches("c03t", "tcase", "t_mismatches", tcases)
     bads = balancelib.coq_mismatches("c03s", "scase", "s_mismatches", scases)
